@@ -329,10 +329,167 @@ def accessor_ranges(F, fn, accs, written_only):
     return out
 
 
+def emitted_count(F, fn):
+    """symbolic number of constraints returned by an `eval_unfiltered` (extension) evaluator: pushes / extends into the result vector
+    weighted by the lengths of the enclosing range loops, `vec![..]` literals, and a tail iterator chain (x D for a flat_map over
+    to_basefield_array).  Returns (polynomial | None, reason)"""
+    from . import poly
+    from .facts import pat_binds
+    E = poly.Ev(F)
+    state = {'total': {}, 'why': None}
+    vlen = {}
+    loops = []
+    RES = ('constraints', 'res', 'result', 'out')
+
+    def rng_len(x, env):
+        while isinstance(x, dict) and x.get('k') == 'MCall' and x['n'] in ('map', 'rev', 'enumerate', 'into_iter', 'iter', 'zip', 'zip_eq', 'collect', 'copied', 'cloned', 'collect_vec'):
+            x = x['r']
+        if isinstance(x, dict) and x.get('k') == 'Struct' and 'Range' in (x.get('d') or ''):
+            f = dict(x['f'])
+            try:
+                a = E.ev(fn, f['start'], env, 3) if 'start' in f else {}
+                return poly.add(E.ev(fn, f['end'], env, 3), a, -1)
+            except (poly.Unknown, KeyError):
+                return None
+        if isinstance(x, dict) and x.get('k') in ('MCall', 'Call'):
+            try:
+                s_, e_ = E.range_of(fn, x, env, 3)
+                if e_ is not None:
+                    return poly.add(e_, s_, -1)
+            except poly.Unknown:
+                pass
+        return None
+
+    def seqlen(n, env):
+        x = n
+        while isinstance(x, dict) and x.get('k') in ('Ref', 'Un', 'Cast'):
+            x = x['e']
+        if not isinstance(x, dict):
+            return None
+        if x.get('k') == 'Local':
+            if x.get('n') in RES:
+                return 'TOTAL'
+            return vlen.get(x['id'])
+        r = rng_len(x, env)
+        if r is not None:
+            return r
+        if x.get('k') == 'MCall':
+            if x['n'] == 'to_basefield_array':
+                return poly.sym('D')
+            if x['n'] == 'flat_map' and any(y.get('k') == 'MCall' and y.get('n') == 'to_basefield_array' for a in x.get('a', []) for y in walk(a)):
+                b = seqlen(x['r'], env)
+                if b == 'TOTAL':
+                    return 'TOTAL*D'
+                return poly.mul(b, poly.sym('D')) if b is not None else None
+            if x['n'] in ('iter', 'into_iter', 'map', 'copied', 'cloned', 'collect', 'to_vec', 'rev', 'collect_vec', 'enumerate', 'zip', 'zip_eq', 'try_into', 'unwrap'):
+                return seqlen(x['r'], env)
+        if x.get('k') == 'Index' and x['i'].get('k') in ('Struct', 'MCall', 'Call'):
+            return rng_len(x['i'], env)
+        if x.get('k') == 'Array':
+            return poly.const(len(x['a']))
+        if x.get('k') == 'Block' and not x['st'] and 'e' in x:
+            return seqlen(x['e'], env)
+        return None
+
+    def rec(n, mult, env):
+        if not isinstance(n, dict) or state['why']:
+            return
+        k = n.get('k')
+        if k == 'Block':
+            e2 = dict(env)
+            for s_ in n['st']:
+                rec(s_, mult, e2)
+                if s_.get('k') == 'Let' and 'i' in s_ and s_['p'].get('k') == 'Bind':
+                    try:
+                        e2[s_['p']['id']] = E.ev(fn, s_['i'], e2, 3)
+                    except poly.Unknown:
+                        pass
+                    L = seqlen(s_['i'], e2)
+                    if L is not None and L not in ('TOTAL', 'TOTAL*D'):
+                        vlen[s_['p']['id']] = L
+                    if s_['p'].get('n') in RES:
+                        arrs = [y for y in walk(s_['i']) if y.get('k') == 'Array']
+                        if arrs:
+                            state['total'] = poly.add(state['total'], poly.mul(mult, poly.const(len(arrs[0]['a']))))
+            if 'e' in n:
+                rec(n['e'], mult, e2)
+            return
+        if k == 'For':
+            L = seqlen(n['it'], env)
+            if L is None or isinstance(L, str):
+                state['why'] = 'loop over a sequence of unknown length at %s' % n.get('s')
+                return
+            loops.append(([b['id'] for b in pat_binds(n['p'])], L, mult, n['it']))
+            rec(n['b'], poly.mul(mult, L), env)
+            loops.pop()
+            return
+        if k == 'If' and 'el' not in n and any(y.get('k') == 'MCall' and y.get('n') in ('push', 'extend') for y in walk(n['th'])):
+            # `if r != <first value of the loop> { .. }`: the body runs for all iterations of that loop but the first
+            c = n['c']
+            ok_ = False
+            if c.get('k') == 'Bin' and c['op'] == 'Ne' and loops:
+                ids, L, outer, it = loops[-1]
+                for a_, b_ in ((c['l'], c['r']), (c['r'], c['l'])):
+                    if a_.get('k') == 'Local' and a_['id'] in ids and b_.get('k') == 'Lit':
+                        x = it
+                        if x.get('k') == 'Struct' and 'Range' in (x.get('d') or ''):
+                            st_ = dict(x['f']).get('start')
+                            if st_ is not None and st_.get('k') == 'Lit' and str(st_.get('v')) == str(b_.get('v')):
+                                rec(n['th'], poly.mul(outer, poly.add(L, poly.const(1), -1)), env)
+                                ok_ = True
+            if not ok_:
+                state['why'] = 'constraints emitted under a condition at %s' % n.get('s')
+            return
+        if k == 'If' and 'el' in n:
+            before = dict(state['total'])
+            rec(n['th'], mult, env)
+            a = state['total']
+            state['total'] = dict(before)
+            rec(n['el'], mult, env)
+            b = state['total']
+            if a != b:
+                state['why'] = 'the arms of the if at %s emit different numbers of constraints' % n.get('s')
+            return
+        if k == 'MCall' and n['r'].get('k') == 'Local' and n['r'].get('n') in RES:
+            if n.get('n') == 'push':
+                state['total'] = poly.add(state['total'], mult)
+            elif n.get('n') in ('extend', 'extend_from_slice', 'append') and n.get('a'):
+                L = seqlen(n['a'][0], env)
+                if L is None or isinstance(L, str):
+                    state['why'] = 'extend with a sequence of unknown length at %s' % n.get('s')
+                    return
+                state['total'] = poly.add(state['total'], poly.mul(mult, L))
+        for c in kids(n):
+            rec(c, mult, env)
+    rec(fn.body, poly.const(1), {})
+    if state['why']:
+        return None, state['why']
+    # the returned value
+    tail = fn.body
+    while isinstance(tail, dict) and tail.get('k') == 'Block' and 'e' in tail:
+        tail = tail['e']
+    # lets of the top-level block are needed for the tail's ranges
+    env = {}
+    for s_ in fn.body.get('st', []):
+        if s_.get('k') == 'Let' and 'i' in s_ and s_['p'].get('k') == 'Bind':
+            try:
+                env[s_['p']['id']] = E.ev(fn, s_['i'], env, 3)
+            except poly.Unknown:
+                pass
+    L = seqlen(tail, env)
+    if L == 'TOTAL':
+        return state['total'], ''
+    if L == 'TOTAL*D':
+        return poly.mul(state['total'], poly.sym('D')), ''
+    if L is None:
+        return None, 'returned value of unknown length'
+    return poly.add(state['total'], L) if state['total'] else L, ''
+
+
 def run(F, ck, tier):
     ck.rule('R07.1', 'every wire accessor used by the gate\'s witness generators flows into an emitted constraint in each evaluator')
     ck.rule('R07.2', 'the evaluators of one gate constrain the same wire accessors; if/else arms advance the same counters')
-    ck.rule('R07.3', 'emission-site structure agrees across the evaluators of one gate')
+    ck.rule('R07.3', 'declared count: eval_unfiltered returns exactly num_constraints() constraints (symbolic count of pushes / extends weighted by loop lengths, compared as polynomials over the gate parameters); emission-site structure agrees across the evaluators')
     ck.rule('R07.4', 'StridedConstraintConsumer::one checks the buffer bound before its unsafe write')
     gates = gate_table(F)
     ck.floor('R07.1', 'Gate impls', len(gates), 16)
@@ -398,6 +555,30 @@ def run(F, ck, tier):
         vals = set(sites.values())
         ck.ob('R07.3', 'sites:%s' % short, len(vals) <= 2, 'emission sites per evaluator: %s' % sites if len(vals) <= 2 else 'emission sites differ widely across evaluators: %s' % sites)
     ck.floor('R07.1', 'accessor x evaluator instances', ninst, 120)
+    # R07.3 (symbolic): the extension evaluator returns exactly num_constraints() constraints
+    from . import poly as _poly
+    nsym = 0
+    for g in sorted(gates, key=lambda x: x['short']):
+        if g['short'] in NO_LOCAL_CONSTRAINTS:
+            continue
+        ev_, nc_ = g['fns'].get('eval_unfiltered'), g['fns'].get('num_constraints')
+        if ev_ is None or nc_ is None or is_stub(ev_):
+            continue
+        try:
+            decl = _poly.Ev(F).ev(nc_, nc_.body, {}, 3)
+        except _poly.Unknown as ex:
+            ck.observe('R07.3 count of %s not decided: num_constraints() outside the normaliser (%s)' % (g['short'], ex))
+            continue
+        emit, why = emitted_count(F, ev_)
+        if emit is None:
+            ck.observe('R07.3 count of %s not decided: %s' % (g['short'], why))
+            continue
+        nsym += 1
+        okc = emit == decl
+        ck.ob('R07.3', 'count:%s' % g['short'], okc, 'eval_unfiltered returns %s constraints = num_constraints()' % _poly.show(decl) if okc else
+              'DECLARED COUNT MISMATCH in %s: eval_unfiltered returns %s constraints but num_constraints() declares %s: surplus constraints are not combined into the quotient (unchecked), missing ones shift the constraints of other gates' %
+              (g['short'], _poly.show(emit), _poly.show(decl)), '%s:%d' % (ev_.file, ev_.line))
+    ck.floor('R07.3', 'gates whose emitted constraint count was derived symbolically', nsym, 10)
     # R07.6 loop bounds agree across the evaluators of one gate
     ck.rule('R07.6', 'the evaluators of one gate iterate over the same ranges: the multiset of range-loop lengths (as polynomials over the gate\'s fields) is the same in the extension, base and in-circuit evaluators')
     nb = 0
@@ -468,5 +649,5 @@ def run(F, ck, tier):
         guard = any(e.kind in ('assert', 'guard') for e in fl.events) or any(x.get('k') == 'If' and flow.panics(x.get('el') or x['th']) for x in walk(one[0].body))
         ck.ob('R07.4', 'consumer.bound', (not has_unsafe) or guard, 'bound check precedes the unsafe write' if guard else 'StridedConstraintConsumer::one writes through a raw pointer without a bound check', '%s:%d' % (one[0].file, one[0].line))
     ck.decided += ['generator-touched wires are constrained in every evaluator', 'evaluators agree on the constrained wire set and counter updates']
-    ck.undecided += ['that constraints DETERMINE the outputs (algebra)', 'value equality of the four evaluators', 'degree bound', 'symbolic equality of the emitted count with num_constraints()']
+    ck.undecided += ['that constraints DETERMINE the outputs (algebra)', 'value equality of the four evaluators', 'degree bound', 'the emitted count of the base / packed / in-circuit evaluators (only compared structurally with the extension evaluator)']
     return 'Decides structural necessary conditions of C07 (wire coverage per evaluator, evaluator agreement). Algebraic determination, evaluator value-equality and degrees are not decided.'
